@@ -57,6 +57,9 @@ pub fn step<T: Elem>(v: &mut Vector<T>, op: &Value) -> Option<StepOut<T>> {
             "clear" => v.clear(),
             "set" => v[getu(op, "i")] = arg_x::<T>(op),
             "resize" | "sort" | "sort_desc" => supported = typed_mut(v, &name, op),
+            "clone_from" => { let w = arg_v::<T>(op); v.clone_from(&w) }
+            "eq" => { let w = arg_v::<T>(op); o.ri = Some((*v == w) as i64) }
+            "ne" => { let w = arg_v::<T>(op); o.ri = Some((*v != w) as i64) }
             "add_assign" => *v += arg_v::<T>(op),
             "sub_assign" => *v -= arg_v::<T>(op),
             "add_scalar_assign" => *v += arg_x::<T>(op),
@@ -235,8 +238,15 @@ pub fn run<T: Elem>(case: &Value, out: &mut Out) {
         let name = gets(op, "op");
         if name == "fnorms" { exec_fnorms(case, op, cid, k, out); first = false; continue; }
         if name == "sweep" { exec_sweep(op, cid, k, out); first = false; continue; }
+        if name == "csum" { exec_csum(op, cid, k, out); first = false; continue; }
         if name == "linspace" || name == "powspace" { exec_space(op, cid, k, out); first = false; continue; }
         let pre_re = jvec(&v, Part::Re); let pre_im = jvec(&v, Part::Im);
+        // == / != against an operand built from the current value: "copy", "prefix" (shorter), "longer", "change" (one element differs)
+        let made: Option<Value> = if let Some(mk) = op.get("mk").and_then(|m| m.as_str()) {
+            let (mut a, mut b) = (ivec(&pre_re), ivec(&pre_im)); let n = a.len();
+            match mk { "prefix" => { let m = n / 2; a.truncate(m); b.truncate(m); } "longer" => { a.push(3); b.push(0); } "change" => { if n > 0 { a[n - 1] += 1; } else { a.push(0); b.push(0); } } _ => {} }
+            let mut o2 = op.clone(); o2["v"] = json!(a); o2["vi"] = json!(b); Some(o2) } else { None };
+        let op = made.as_ref().unwrap_or(op);
         let mut e = op.clone();
         e["ty"] = json!(T::NAME); e["cid"] = json!(cid); e["k"] = json!(k);
         // an aliased call has no second operand of its own: the operand the specification is given is the logged pre-state
@@ -345,7 +355,7 @@ fn rand_op(rng: &mut StdRng, t: &mut Track, ty: &str) -> Value {
         let n = t.n;
         let bad = rng.gen_bool(0.06);
         let ix = |rng: &mut StdRng, n: usize, bad: bool| -> i64 { if bad { (n + rng.gen_range(0..3)) as i64 } else if n == 0 { 0 } else { rng.gen_range(0..n) as i64 } };
-        let pick = rng.gen_range(0..60);
+        let pick = rng.gen_range(0..64);
         let o: Value = match pick {
             0..=3 => { if n >= MAXLEN { continue; } let x = small(rng); let o = with_x(json!({"op": "push"}), rng, cx, x); t.recent.push((x, o.get("xi").and_then(|v| v.as_i64()).unwrap_or(0))); t.n += 1; t.b = t.b.max(9); o }
             4..=5 => { if n >= MAXLEN { continue; } let x = small(rng); let o = with_x(json!({"op": "push_front"}), rng, cx, x); t.recent.push((x, o.get("xi").and_then(|v| v.as_i64()).unwrap_or(0))); t.n += 1; t.b = t.b.max(9); o }
@@ -395,7 +405,11 @@ fn rand_op(rng: &mut StdRng, t: &mut Track, ty: &str) -> Value {
             56 => { if !f64ty { continue; } json!({"op": "norm_p", "p": rng.gen_range(1..=8)}) }
             57 => { let x = small(rng); let m = rng.gen_range(0..=MAXLEN); let a = rng.gen_bool(0.3); if a { t.n = m; t.b = 9; } maybe_adopt(with_x(json!({"op": "new", "n": m}), rng, cx, x), a) }
             58 => { let m = rng.gen_range(0..=MAXLEN); let a = rng.gen_bool(0.3); if a { t.n = m; t.b = 9; } maybe_adopt(json!({"op": "zeros", "n": m}), a) }
-            _ => { let m = rng.gen_range(0..=MAXLEN); let a = rng.gen_bool(0.3); if a { t.n = m; t.b = 9; } maybe_adopt(json!({"op": "ones", "n": m}), a) }
+            59 => { let m = rng.gen_range(0..=MAXLEN); let a = rng.gen_bool(0.3); if a { t.n = m; t.b = 9; } maybe_adopt(json!({"op": "ones", "n": m}), a) }
+            // clone_from: the destination is longer / equal / shorter / empty relative to the source
+            60 => { let m = match rng.gen_range(0..5) { 0 => 0, 1 => n, 2 => n / 2, 3 => (n + 1 + rng.gen_range(0..8)).min(MAXLEN), _ => rng.gen_range(0..=MAXLEN) }; t.n = m; t.b = 9; with_v(json!({"op": "clone_from"}), rng, cx, m, -9, 9) }
+            61..=62 => json!({"op": if rng.gen_bool(0.5) { "eq" } else { "ne" }, "mk": (["copy", "prefix", "longer", "change"][rng.gen_range(0..4)])}),
+            _ => { let m = if rng.gen_bool(0.5) { n } else { rng.gen_range(0..=MAXLEN) }; with_v(json!({"op": if rng.gen_bool(0.5) { "eq" } else { "ne" }}), rng, cx, m, -2, 2) }
         };
         return o;
     }
@@ -584,6 +598,42 @@ pub fn gen(tier: &str, seed: u64, out: &mut Out) {
             }
         }
     }
+    // (n) clone_from and == / != for destinations longer / equal / shorter / empty relative to the source, every element type
+    { let szs = [0usize, 1, 2, 5, 31, 64];
+      for (i, dn) in szs.iter().enumerate() { for (j2, sn) in szs.iter().enumerate() { for ty in TYS {
+        if quick && (i + j2 + ty.len()) % 2 == 1 && *dn != 5 { continue; }
+        let cx = ty == "cx";
+        let mut ops = vec![json!({"op": "eq", "mk": "copy"}), json!({"op": "ne", "mk": "prefix"}), json!({"op": "eq", "mk": "longer"}), json!({"op": "eq", "mk": "prefix"}), json!({"op": "ne", "mk": "change"}),
+                           with_v(json!({"op": "clone_from"}), &mut rng, cx, *sn, -9, 9), json!({"op": "size"}), json!({"op": "clone"}), json!({"op": "norm_1"}), json!({"op": "eq", "mk": "copy"}), json!({"op": "ne", "mk": "longer"}),
+                           json!({"op": "push", "x": 4, "xi": 1}), with_v(json!({"op": "clone_from"}), &mut rng, cx, *sn / 2, -9, 9), json!({"op": "size"}), json!({"op": "dot", "alias": true}),
+                           with_v(json!({"op": "clone_from"}), &mut rng, cx, *dn, -9, 9), json!({"op": "size"}), json!({"op": "eq", "mk": "copy"})];
+        if *sn > 0 { ops.insert(9, json!({"op": "sum"})); }
+        let mut c = json!({"ty": ty, "init": rand_vec_json(&mut rng, *dn, -9, 9), "ops": ops}); if cx { c["initi"] = rand_vec_json(&mut rng, *dn, -9, 9); }
+        push(out, c);
+      } } } }
+    // (o) cancellation family, lengths 16..64: a few huge terms (2^52, 2^53, 2^60) that cancel - or combine exactly - in left-to-right
+    //     order, at every residue position mod 8, among zeros, small integers and halves; all index ranges (starts 0..7 and a few more
+    //     in quick); exactness is demanded exactly for the ranges whose left-to-right partial sums are all representable
+    { let lens: Vec<usize> = if quick { (16..=64).step_by(3).collect() } else { (16..=64).collect() };
+      for (ci, n) in lens.iter().enumerate() { for rep in 0..(if quick { 1 } else { 4 }) {
+        let n = *n; let mut xs: Vec<(i64, usize)> = vec![(0, 1); n];
+        let layout = (ci + rep) % 3; let res = (ci * 3 + rep) % 8;
+        let small = |rng: &mut StdRng| -> (i64, usize) { match rng.gen_range(0..10) { 0..=3 => (0, 1), 4..=7 => (rng.gen_range(-3..=3), 1), _ => (if rng.gen_bool(0.5) { 1 } else { -1 }, 0) } };
+        let hs = [2usize, 3, 4][rng.gen_range(0..3)]; let sg = if rng.gen_bool(0.5) { 1 } else { -1 };
+        match layout {
+            0 => { let p = res; let q = p + 1 + rng.gen_range(0..3); xs[p] = (sg, hs); xs[q] = (-sg, hs); for i in (q + 1)..n { xs[i] = small(&mut rng); } }      // pair first, small terms after
+            1 => { for i in 0..res.max(2) { xs[i] = (1, 0); } if res.max(2) % 2 == 1 { xs[res.max(2)] = (1, 0); }                                                 // halves adding up to an integer, then 2^52, then integers
+                   let p = res.max(2) + 2; xs[p] = (sg, 2); for i in (p + 1)..n { if rng.gen_bool(0.3) { xs[i] = (rng.gen_range(0..=2) * sg, 1); } } }
+            _ => { let p = res; let q = p + 1; xs[p] = (sg, hs); xs[q] = (-sg, hs); let p2 = q + 4 + rng.gen_range(0..8); if p2 + 2 < n { xs[p2] = (-sg, 4); xs[p2 + 2] = (sg, 4); }
+                   for i in (q + 1)..n { if xs[i] == (0, 1) && i != p2 + 1 { xs[i] = small(&mut rng); } } }
+        }
+        let ys: Vec<i64> = (0..n).map(|_| [1i64, -1, 2, 1][rng.gen_range(0..4)]).collect();
+        let mut starts: Vec<usize> = if quick { (0..8).collect() } else { (0..n).collect() };
+        if quick { for _ in 0..3 { starts.push(rng.gen_range(8..n)); } }
+        let xj: Vec<Value> = xs.iter().map(|(m, si)| json!([m, si])).collect();
+        let ops: Vec<Value> = starts.iter().map(|a| json!({"op": "csum", "xs": xj, "ys": ys, "a": a})).collect();
+        push(out, json!({"ty": "f64", "init": [], "ops": ops}));
+      } } }
     // (m) MAGNITUDE SWEEP: exactly representable vectors whose 2-norm is exactly representable, scaled by 2^k for EVERY k for which
     //     the definition's own intermediates stay in range (derived from the definition: entries and sums for the linear operations,
     //     -1070 <= k <= 1000; squares and their sum for norm_2 / complex moduli; products for dot and product_slice).  [1,2,2]
@@ -745,5 +795,39 @@ fn exec_sweep(op: &Value, cid: i64, kk: usize, out: &mut Out) {
     for f in ["b", "c", "sk", "sj", "has2", "hasd", "hasdf", "haspp", "hascx", "sa", "sb", "pa", "pb", "zr", "zi"] { e[f] = op[f].clone(); }
     e["ci"] = json!(ci.iter().take(zr.len()).cloned().collect::<Vec<i64>>()); e["cw"] = json!(c.iter().take(zr.len()).cloned().collect::<Vec<i64>>());
     e["op"] = json!("sweep"); e["ty"] = json!("f64"); e["cid"] = json!(cid); e["k"] = json!(kk); e["pre"] = json!([]); e["post"] = json!([]);
+    out.ev(e);
+}
+
+// ------------------------------------------------------------------ cancellation family: range sums whose left-to-right evaluation is exact
+const CS_SCALES: [i32; 5] = [-1, 0, 52, 53, 60];
+/// a value in half-units is an f64 iff its odd part has at most 53 bits
+fn repr_half(p: i128) -> bool { if p == 0 { return true; } let q = p.abs() >> p.abs().trailing_zeros(); q < (1i128 << 53) }
+fn to_half(x: f64) -> Option<i128> { if !x.is_finite() || x.abs() >= 1e30 { return None; } let t = x * 2.0; if t.fract() != 0.0 { None } else { Some(t as i128) } }
+fn exec_csum(op: &Value, cid: i64, kk: usize, out: &mut Out) {
+    let xs: Vec<(i64, usize)> = op["xs"].as_array().unwrap().iter().map(|p| (p[0].as_i64().unwrap(), p[1].as_i64().unwrap() as usize)).collect();
+    let ys = ivec(&op["ys"]); let a = getu(op, "a"); let n = xs.len();
+    let half = |m: i64, si: usize| -> i128 { (m as i128) << (CS_SCALES[si] + 1) };
+    let v = Vector::<f64>::create(xs.iter().map(|(m, si)| *m as f64 * pow2(CS_SCALES[*si])).collect());
+    let w = Vector::<f64>::create(ys.iter().map(|y| *y as f64).collect());
+    let r = guarded(|| {
+        let (mut rs, mut ok, mut dem) = (vec![], vec![], vec![]);
+        let mut p: i128 = 0; let mut exact_so_far = true; let mut coef = [0i64; 5];
+        for b in a..n {
+            p += half(xs[b].0, xs[b].1); coef[xs[b].1] += xs[b].0; exact_so_far = exact_so_far && repr_half(p);
+            rs.push(coef.to_vec()); dem.push(exact_so_far); ok.push(to_half(v.sum_slice(a, b)) == Some(p));
+        }
+        let mut e = json!({"rs": rs, "ok": ok, "dem": dem});
+        if a == 0 && n > 0 {
+            e["sok"] = json!(to_half(v.sum()) == Some(p));
+            // dot with small integer multipliers: the same left-to-right rule on the products
+            let (mut q, mut dd, mut dc) = (0i128, true, [0i64; 5]);
+            for i in 0..n { q += half(xs[i].0 * ys[i], xs[i].1); dc[xs[i].1] += xs[i].0 * ys[i]; dd = dd && repr_half(q); }
+            e["dcoef"] = json!(dc.to_vec()); e["ddem"] = json!(dd); e["dok"] = json!(to_half(v.dot(&w)) == Some(q));
+        }
+        e
+    });
+    let mut e = match r { Ok(v) => { let mut v = v; v["panic"] = json!(false); v } Err(_) => json!({"panic": true}) };
+    e["xs"] = op["xs"].clone(); e["ys"] = op["ys"].clone(); e["a"] = json!(a);
+    e["op"] = json!("csum"); e["ty"] = json!("f64"); e["cid"] = json!(cid); e["k"] = json!(kk); e["pre"] = json!([]); e["post"] = json!([]);
     out.ev(e);
 }
